@@ -13,6 +13,9 @@
 //!             j      written as a further declarator of the previous declaration (`T a, b[2];`)
 //!             s      `static` storage (lives in the shader: no slot)
 //!             z      unsized array `name[]` (the allocator ignores unsized arrays; the property excludes them)
+//!             m      two-dimensional array `name[len][2]` (the allocator peels one array layer and ignores it;
+//!                    outside the property's quantifier, which lists one-dimensional lengths)
+//!             o      [[rssl::bind_group(G)]] written together with register(space(G+1)): the attribute wins
 //! observe : `ok:` + per returned pipeline `{group / group / ...}` joined by ` ## `; group = bindings `;`-joined
 //!           then `|` and the inline block `location,size` or `-`; binding = `name,(i<index>|n<offset>),(count|*)`
 //!           | `err:none` | `err:unknown:<name>` | `err:bind-group:<n>` | `err:other:<text>` | `panic:<site>`
@@ -30,6 +33,8 @@ pub enum How {
     Attr,
     Space,
     VkBinding,
+    /// `[[rssl::bind_group(G)]]` together with `register(space(G+1))`: the attribute overrides the register space
+    Override,
 }
 
 #[derive(Clone, Debug, PartialEq)]
@@ -41,6 +46,8 @@ pub struct Res {
     pub bindless: bool,
     pub ns: bool,
     pub unsized_arr: bool,
+    /// two-dimensional array `name[len][2]`: the allocator peels one array layer only and then sees no object
+    pub dim2: bool,
     pub joined: bool,
 }
 
@@ -75,7 +82,7 @@ fn show_res(r: &Res) -> String {
         Decl::Global { set, .. } | Decl::StaticObject { set, .. } => set.is_some(),
     };
     if has_set || r.lang_index.is_some() {
-        flags.push(match r.how { How::Attr => "a", How::Space => "r", How::VkBinding => "v" }.to_string());
+        flags.push(match r.how { How::Attr => "a", How::Space => "r", How::VkBinding => "v", How::Override => "o" }.to_string());
     }
     if let Some(i) = r.lang_index {
         flags.push(format!("i{}", i));
@@ -85,6 +92,7 @@ fn show_res(r: &Res) -> String {
     if r.joined { flags.push("j".into()); }
     if is_static { flags.push("s".into()); }
     if r.unsized_arr { flags.push("z".into()); }
+    if r.dim2 { flags.push("m".into()); }
     format!("{}={}~{}", r.name, decl_text, flags.join("."))
 }
 
@@ -100,6 +108,7 @@ fn parse_res(s: &str) -> Option<Res> {
         bindless: false,
         ns: false,
         unsized_arr: false,
+        dim2: false,
         joined: false,
     };
     for f in flags.split('.').filter(|f| !f.is_empty()) {
@@ -107,6 +116,8 @@ fn parse_res(s: &str) -> Option<Res> {
             "a" => r.how = How::Attr,
             "r" => r.how = How::Space,
             "v" => r.how = How::VkBinding,
+            "o" => r.how = How::Override,
+            "m" => r.dim2 = true,
             "b" => r.bindless = true,
             "n" => r.ns = true,
             "j" => r.joined = true,
@@ -212,6 +223,14 @@ fn binding_text(r: &Res, set: Option<u32>, class: Option<char>) -> (String, Stri
                 None => before.push_str(&format!("[[vk::binding({})]] ", i)),
             }
         }
+        (How::Override, Some(c)) if set.is_some() => {
+            let g = set.unwrap();
+            before.push_str(&format!("[[rssl::bind_group({})]] ", g));
+            after = match r.lang_index {
+                Some(i) => format!(" : register({}{}, space{})", c, i, g + 1),
+                None => format!(" : register(space{})", g + 1),
+            };
+        }
         (How::Space, Some(c)) if set.is_some() || r.lang_index.is_some() => {
             after = match (r.lang_index, set) {
                 (Some(i), Some(g)) => format!(" : register({}{}, space{})", c, i, g),
@@ -249,7 +268,7 @@ fn can_join(prev: &Res, cur: &Res) -> bool {
         && cur.lang_index.is_none()
         && prev.bindless == cur.bindless
         && prev.ns == cur.ns
-        && !(matches!(prev.how, How::Space) && base(prev).unwrap().0.is_some())
+        && !(matches!(prev.how, How::Space | How::Override) && base(prev).unwrap().0.is_some())
 }
 
 fn declarator(r: &Res, len: Option<u32>) -> String {
@@ -258,6 +277,9 @@ fn declarator(r: &Res, len: Option<u32>) -> String {
         s.push_str("[]");
     } else if let Some(n) = len {
         s.push_str(&format!("[{}]", n));
+        if r.dim2 {
+            s.push_str("[2]");
+        }
     }
     s
 }
@@ -273,7 +295,9 @@ pub fn source(p: &Prog) -> String {
             Decl::Other => line.push_str(&format!("struct {} {{ int x; }};", r.name)),
             Decl::CBuffer(set) => {
                 let (before, after) = binding_text(r, *set, Some('b'));
-                line.push_str(&format!("{}cbuffer {}{} {{ float4 {}_v; }}", before, r.name, after, r.name));
+                // one to three members: members are not root definitions and take nothing
+                let extra = ["", " float2 pad_a[2];", " float2 pad_a[2]; uint pad_b;"][(r.name.bytes().last().unwrap_or(0) % 3) as usize];
+                line.push_str(&format!("{}cbuffer {}{} {{ float4 {}_v;{} }}", before, r.name, after, r.name, extra).replace("pad_", &format!("{}_pad_", r.name)));
             }
             Decl::Global { set, kind: None, len, .. } => {
                 // a global that is not an object: only the attribute form of a group is accepted on it
@@ -331,7 +355,11 @@ pub fn source(p: &Prog) -> String {
         match &r.decl {
             Decl::CBuffer(_) => format!("    {}{}_v;\n", q, r.name),
             Decl::Global { kind: Some(_), len, .. } => {
-                if len.is_some() || r.unsized_arr {
+                if r.dim2 {
+                    // never mentioned in a function: a global without a slot that a Metal entry point reaches is the
+                    // known C08 panic (msl/src/generator/pipeline.rs, unwrap of the missing argument-buffer index)
+                    String::new()
+                } else if len.is_some() || r.unsized_arr {
                     format!("    {}{}[0u];\n", q, r.name)
                 } else {
                     format!("    {}{};\n", q, r.name)
@@ -516,12 +544,12 @@ fn demand(r: &Res, tgt: Tgt, dflt: u32) -> Option<(u32, bool, u32, u32)> {
 fn oracle_pipeline(p: &Prog, tgt: Tgt, dflt: u32, groups: &[MetaGroup]) -> Result<(), String> {
     use std::collections::BTreeMap;
     // unsized arrays are outside the property (its quantifier excludes them): a group that reports one is not judged
-    let unsized_names: Vec<&str> = p.res.iter().filter(|r| r.unsized_arr).map(|r| r.name.as_str()).collect();
+    let unsized_names: Vec<&str> = p.res.iter().filter(|r| r.unsized_arr || r.dim2).map(|r| r.name.as_str()).collect();
     let mut want: BTreeMap<u32, Vec<(String, bool, u32, u32)>> = BTreeMap::new();
     let mut next_index: BTreeMap<u32, u32> = BTreeMap::new();
     let mut next_inline: BTreeMap<u32, u32> = BTreeMap::new();
     for r in &p.res {
-        if r.unsized_arr {
+        if r.unsized_arr || r.dim2 {
             continue;
         }
         if let Some((g, inline, amount, count)) = demand(r, tgt, dflt) {
@@ -630,7 +658,7 @@ fn oracle(p: &Prog, tgt: Tgt, mode: &Mode, o: &Outcome) -> String {
                         && shown.strip_prefix("err:bind-group:").and_then(|n| n.parse::<u32>().ok()).is_some_and(|n| {
                             n >= 4
                                 && dflts.iter().any(|d| {
-                                    p.res.iter().any(|r| !r.unsized_arr && demand(r, tgt, *d).is_some_and(|w| w.0 == n))
+                                    p.res.iter().any(|r| !r.unsized_arr && !r.dim2 && demand(r, tgt, *d).is_some_and(|w| w.0 == n))
                                 })
                         }) =>
                 {
@@ -689,11 +717,12 @@ fn gen_res(rng: &mut Rng, i: usize, prev: Option<&Res>) -> Res {
     let mut r = Res {
         name: format!("g_r{}", i),
         decl: Decl::Other,
-        how: *rng.pick(&[How::Attr, How::Attr, How::Space, How::VkBinding]),
+        how: *rng.pick(&[How::Attr, How::Attr, How::Attr, How::Space, How::Space, How::VkBinding, How::VkBinding, How::Override]),
         lang_index: if rng.chance(1, 5) { Some(rng.below(12) as u32) } else { None },
         bindless: false,
         ns: rng.chance(1, 10),
         unsized_arr: false,
+        dim2: false,
         joined: false,
     };
     // a further declarator of the previous declaration
@@ -707,7 +736,7 @@ fn gen_res(rng: &mut Rng, i: usize, prev: Option<&Res>) -> Res {
                 _ => None,
             };
             if let Some(d) = base {
-                let j = Res { decl: d, joined: true, name: r.name.clone(), ..p.clone() };
+                let j = Res { decl: d, joined: true, dim2: false, name: r.name.clone(), ..p.clone() };
                 if can_join(p, &j) {
                     return j;
                 }
@@ -758,6 +787,18 @@ fn gen_res(rng: &mut Rng, i: usize, prev: Option<&Res>) -> Res {
     }
     if let Decl::Global { kind: Some(k), len: Some(_), ss: false, .. } = &r.decl {
         r.bindless = !k.contains("Address") && rng.chance(1, 4);
+        r.dim2 = !k.contains("Address") && *k != "ConstantBuffer" && rng.chance(1, 12);
+    }
+    if r.how == How::Override {
+        // the override form needs an object type (register) and an explicit group
+        let ok = match &r.decl {
+            Decl::CBuffer(s) => s.is_some(),
+            Decl::Global { set, kind: Some(_), .. } | Decl::StaticObject { set, .. } => set.is_some(),
+            _ => false,
+        };
+        if !ok {
+            r.how = How::Attr;
+        }
     }
     if r.how == How::VkBinding && r.lang_index.is_none() {
         let has_set = match &r.decl {
@@ -808,6 +849,7 @@ pub fn run_prog(p: &Prog, rng: &mut Rng, out: &mut Out, hist: &mut Hist) {
             Decl::Global { kind: None, .. } => "e2e:decl:non-object",
             Decl::Global { ss: true, .. } => "e2e:decl:static-sampler",
             Decl::Global { .. } if r.unsized_arr => "e2e:decl:unsized-array",
+            Decl::Global { .. } if r.dim2 => "e2e:decl:two-dimensional-array",
             Decl::Global { len: Some(_), .. } => "e2e:decl:object-array",
             Decl::Global { .. } => "e2e:decl:object",
         });
@@ -818,6 +860,7 @@ pub fn run_prog(p: &Prog, rng: &mut Rng, out: &mut Out, hist: &mut Hist) {
         match r.how {
             How::Space => hist.add("e2e:how:register-space"),
             How::VkBinding => hist.add("e2e:how:vk-binding"),
+            How::Override => hist.add("e2e:how:attribute-overrides-register-space"),
             How::Attr => {}
         }
     }
